@@ -33,6 +33,9 @@ type Controller struct {
 
 	evtC  <-chan config.Event
 	procs map[string]proc.Proc
+	// drained indicates the listeners have been drained, the processors
+	// which are added later must not listen either.
+	drained bool
 
 	startOnce sync.Once
 	quit      chan struct{}
@@ -120,10 +123,20 @@ func (c *Controller) getProc(name string) (proc.Proc, bool) {
 
 func (c *Controller) addProc(proc proc.Proc) {
 	c.mu.Lock()
-	defer c.mu.Unlock()
 	procName := proc.Name()
 	c.procs[procName] = proc
+	drained := c.drained
+	c.mu.Unlock()
 	logger.Infof("Add processor %s", procName)
+
+	// NOTE: The drain only reaches the processors which are registered when
+	// it's requested. This one was started meanwhile or afterwards (the
+	// instance keeps handling config events until it's terminated).
+	if drained {
+		if err := proc.StopListen(); err != nil {
+			logger.Warnf("Proc[%s] stop listen failed: %v", procName, err)
+		}
+	}
 }
 
 func (c *Controller) removeProc(proc proc.Proc) {
@@ -241,12 +254,13 @@ func (c *Controller) stopAllProcs() {
 
 // DrainListeners drains all processor listener.
 func (c *Controller) DrainListeners() {
-	c.mu.RLock()
+	c.mu.Lock()
+	c.drained = true
 	procs := make(map[string]proc.Proc, len(c.procs))
 	for name, proc := range c.procs {
 		procs[name] = proc
 	}
-	c.mu.RUnlock()
+	c.mu.Unlock()
 
 	for name, proc := range procs {
 		if err := proc.StopListen(); err != nil {
